@@ -113,7 +113,9 @@ func lattices(k, ks int, dirK int) []lattice {
 			return p9p.MessageTwalk{Fid: p9p.Fid(aU32[x[0]]), Newfid: p9p.Fid(aU32[(x[1]+1)%len(aU32)]), Wnames: nameList(listLens[x[2]], aStr[x[3]])}
 		}},
 		{"Rwalk", []int{nl}, func(x []int) p9p.Message { return p9p.MessageRwalk{Qids: qidList(listLens[x[0]])} }},
-		{"Topen", []int{n32, n8}, func(x []int) p9p.Message { return p9p.MessageTopen{Fid: p9p.Fid(aU32[x[0]]), Mode: p9p.Flag(aU8[x[1]])} }},
+		{"Topen", []int{n32, n8}, func(x []int) p9p.Message {
+			return p9p.MessageTopen{Fid: p9p.Fid(aU32[x[0]]), Mode: p9p.Flag(aU8[x[1]])}
+		}},
 		{"Ropen", []int{n8, n32, n64, n32}, func(x []int) p9p.Message {
 			return p9p.MessageRopen{Qid: qid(x[0], x[1], x[2]), IOUnit: aU32[(x[3]+1)%len(aU32)]}
 		}},
